@@ -6,7 +6,7 @@ CHECK = {
     "gen": [{"pkg": "extract_c03", "out": "lean/ClusterVerif/Gen/C03.lean"}],
     "lean_sources": ["ClusterVerif/Model/C03Skeleton.lean", "ClusterVerif/Gen/C03.lean", "ClusterVerif/Model/C03.lean", "ClusterVerif/Spec/C03.lean", "ClusterVerif/Lemmas/C03.lean", "ClusterVerif/Lemmas/C03Sort.lean",
                      "ClusterVerif/Model/C03Pipeline.lean", "ClusterVerif/Lemmas/C03Pipeline.lean", "ClusterVerif/Model/C03Block.lean",
-                     "ClusterVerif/Lemmas/C03Block.lean", "ClusterVerif/Spec/C03Block.lean", "ClusterVerif/Model/C03Alloc.lean", "ClusterVerif/Lemmas/C03Alloc.lean", "ClusterVerif/Model/C04.lean", "ClusterVerif/Model/Pin.lean"],
+                     "ClusterVerif/Lemmas/C03Block.lean", "ClusterVerif/Spec/C03Block.lean", "ClusterVerif/Model/C03Alloc.lean", "ClusterVerif/Lemmas/C03Alloc.lean", "ClusterVerif/Model/C03Wiring.lean", "ClusterVerif/Model/C04.lean", "ClusterVerif/Model/Pin.lean"],
     "rule": "cases = (strategy, factor pair, 0-8 peers each in one of 5 metric states, current/exclusion/priority lists) "
             "drawn from one splitmix64 stream per case index; suite raw: 0-14 raw metric arrivals (3 names, members and non-members, invalid/expired/non-numeric, repeats in any order) "
             "+ peerset view (none / failing / members) through the real pubsubmon.Monitor; suite block: BlockAllocate requests (cid.Undef via adder.BlockAllocate, stored entry, factors, expiry, "
